@@ -126,3 +126,35 @@ Theorem C20_compound_assignment_faults_cite_itself : forall fo meta real_of p n 
   end.
 Proof. exact compound_assignment_read_fails. Qed.
 Print Assumptions C20_compound_assignment_faults_cite_itself.
+
+(* ---------- from the TEXT to the cited line (Lang/Lexer.v, Lang/Reader.v) ---------- *)
+From GV Require Import Lang.Lexer Lang.LexerFacts Lang.Reader Lang.ReaderPos.
+
+(* a token's position is computed from the text before it: 1-based line = 1 + line breaks read, 0-based column =
+   characters since the last line break *)
+Theorem C20_token_position_is_its_line_and_column : forall (s : string) (t : ptok),
+  In t (lx_toks (lex s)) ->
+  fst (pt_pos t) = (1 + count_nl (firstn (pt_off t) (list_ascii_of_string s)))%nat /\
+  snd (pt_pos t) = length (last_line (firstn (pt_off t) (list_ascii_of_string s))).
+Proof. exact lex_token_line. Qed.
+Print Assumptions C20_token_position_is_its_line_and_column.
+
+(* every position stored in a tree read from a text is the position of a token of that text *)
+Theorem C20_tree_positions_are_token_positions : forall reals s rs,
+  read_text reals s = ROk rs ->
+  forall r, In r rs -> forall p, In p (positions_block (r_body r)) ->
+  exists t, In t (lx_toks (lex s)) /\ pt_pos t = p.
+Proof. exact read_text_positions_are_token_positions. Qed.
+Print Assumptions C20_tree_positions_are_token_positions.
+
+(* text -> tree -> execution: whatever position the failure of a rule read from the text s cites, it is the line
+   (1 + line breaks before it) and column of a token of s — for every multi-rule, multi-line text, every layout *)
+Theorem C20_cited_positions_are_lines_of_the_text : forall fo meta real_of contained reals s rs r inj tr cs,
+  read_text reals s = ROk rs -> In r rs ->
+  fst (exec_rule fo meta real_of contained (r_body r) inj tr) = RRError cs ->
+  forall p, In p cs ->
+  exists off, (off < String.length s)%nat /\
+              fst p = (1 + count_nl (firstn off (list_ascii_of_string s)))%nat /\
+              snd p = length (last_line (firstn off (list_ascii_of_string s))).
+Proof. exact cited_positions_are_lines_of_the_text. Qed.
+Print Assumptions C20_cited_positions_are_lines_of_the_text.
